@@ -20,7 +20,7 @@ ASSUMPTIONS = [
     "the oracle never reads Resolver._match_cache; its length is sampled only to report evictions",
 ]
 GATES = ["mon.C08.relaxed", "mon.C08.strict", "mon.C08.get_agreement", "mon.C08.history", "C08.strict_raised", "C08.strict_returned_with_dead_end_free",
-         "C08.metachar_name", "C08.order_clause", "C08.dup_clause", "C08.cache_evictions_forced", "C08.opposite_ic_first", "C08.starstar", "C08.duplicate_sibling_names", "C08.after_mutation"]
+         "C08.metachar_name", "C08.order_clause", "C08.dup_clause", "C08.cache_evictions_forced", "C08.opposite_ic_first", "C08.starstar", "C08.duplicate_sibling_names", "C08.after_mutation", "C08.option_attributes_reassigned"]
 
 
 def plan(tier, seed, jobs):
@@ -59,8 +59,14 @@ def check_glob(ctx, lib, nodes, idmap, par, ch, names, start, pattern, sep, ic, 
     snames = [str(x) for x in names]
     ref = RR.ref_glob(par, ch, snames, start, pattern, sep, ic)
     cfg = dict(case, start=start, pattern=pattern, ignorecase=ic, history=history)
-    rr = resolvers[(ic, True)] if resolvers else lib.Resolver(pathattr, ignorecase=ic, relax=True)
-    rs = resolvers[(ic, False)] if resolvers else lib.Resolver(pathattr, ignorecase=ic, relax=False)
+    single = None
+    if resolvers is not None and not isinstance(resolvers, dict):
+        # one long-lived object whose public option attributes are reassigned before every use
+        single = resolvers
+        rr = rs = single
+    else:
+        rr = resolvers[(ic, True)] if resolvers else lib.Resolver(pathattr, ignorecase=ic, relax=True)
+        rs = resolvers[(ic, False)] if resolvers else lib.Resolver(pathattr, ignorecase=ic, relax=False)
     if history == "burst":
         ctx.count("mon.C08.history")
         if burst(lib, pattern):
@@ -73,6 +79,9 @@ def check_glob(ctx, lib, nodes, idmap, par, ch, names, start, pattern, sep, ic, 
         ctx.count("C08.starstar")
     # ---- (1) relaxed
     ctx.count("mon.C08.relaxed")
+    if single is not None:
+        single.ignorecase, single.relax = ic, True
+        ctx.count("C08.option_attributes_reassigned")
     o = observe(rr.glob, nodes[start], pattern)
     if o[0] != "ret" or type(o[1]) is not list:
         ctx.violation("C08/relaxed/%s" % (o[1] if o[0] == "exc" else "not-a-list"), "relaxed-never-raises", dict(cfg, relax=True), expected=sorted(ref["set"]),
@@ -99,6 +108,8 @@ def check_glob(ctx, lib, nodes, idmap, par, ch, names, start, pattern, sep, ic, 
         return True
     # ---- (2) strict
     ctx.count("mon.C08.strict")
+    if single is not None:
+        single.ignorecase, single.relax = ic, False
     s = observe(rs.glob, nodes[start], pattern)
     if s[0] == "ret":
         if not ref["dead_end"]:
@@ -285,9 +296,11 @@ def mutation_histories(ctx, lib):
         rng = ctx.rng("mhist", h)
         k = rng.randint(3, 8)
         res = {(ic, relax): lib.Resolver("name", ignorecase=ic, relax=relax) for ic in (False, True) for relax in (False, True)}
+        if h % 3 == 0:
+            res = lib.Resolver("name")
         names = None
         renames = []
-        for nodes, par, ch, case in TR.evolving_universe(ctx, rng, "Node", k, rng.randint(4, 14)):
+        for nodes, par, ch, case in TR.evolving_universe(ctx, rng, "Node", k, rng.randint(4, 14), fault_rate=(0.3 if h % 2 else 0.0)):
             if names is None:
                 names = [n.name for n in nodes]
             for _ in range(rng.randint(0, 2)):
@@ -298,7 +311,7 @@ def mutation_histories(ctx, lib):
                 renames.append([len(case["history"]), "set", i, new])
             ctx.count("C08.after_mutation")
             idmap = {id(o): i for i, o in enumerate(nodes)}
-            c2 = dict(case, kind="hist", sep="/", names=list(names), renames=[list(x) for x in renames])
+            c2 = dict(case, kind="hist", sep="/", names=list(names), renames=[list(x) for x in renames], single_resolver=not isinstance(res, dict))
             for q in range(8):
                 s = rng.randrange(k)
                 p = patterns_for(rng, names, "/", lambda: RR.abs_path(par, names, rng.randrange(k), "/"))
@@ -322,6 +335,8 @@ def replay_history(ctx, wit):
     c = wit["case"]
     ctx.case(("replay",))
     res = {(ic, relax): lib.Resolver("name", ignorecase=ic, relax=relax) for ic in (False, True) for relax in (False, True)}
+    if c.get("single_resolver"):
+        res = lib.Resolver("name")
     names = None
     for step, (nodes, par, ch) in enumerate(TR.replay_universe(c)):
         if names is None:
